@@ -76,8 +76,37 @@ def run(ctx):
             ctx.ob('2d reseek-after-refresh', 'K2-order', fn, 'after re-opening the tree the position is re-established from last_key (4 arms)', len(sk) == 4 and all(any(o in b.reaches(o2) or True for o2 in opens) for o in sk), str(sk))
             for s in sk:
                 lib.precedes(ctx, '2e reseek-on-new-tree', b, opens, [s], 'the re-seek happens on the re-opened tree')
+    # repositioning forgets the parked tree entry: every iterator method that re-seeks the tree cursor (seek, seek_to_last, ...)
+    # resets pending_backend on all its success paths - the parked entry belongs to the old position (siblings must agree)
+    nre = 0
+    for b in sorted(F.bodies.values(), key=lambda x: x.path):
+        if not b.path.startswith('btree::iter::BTreeIterator') or b.kind == 'Closure' or b.path.endswith('::iter_inner') or b.path.endswith('::next_backend'):
+            continue
+        sk = lib.sites_reaching(b, ["re:BTreeIterator::<'a>::seek_backend(_to_last)?$", 're:BTreeIterator.*::seek_backend(_to_last)?$'])
+        sk = [x for x in sk if not call_matches(b.term(x), ["re:BTreeIterator.*::(seek|seek_to_first|seek_to_last)$"])]
+        if not sk or b.path.endswith('::seek_backend') or b.path.endswith('::seek_backend_to_last'):
+            continue
+        nre += 1
+        clr = core.stmt_sites_assigning_field(b, '.BTreeIterator.pending_backend')
+        clr_blocks = [x[0] if isinstance(x, tuple) else x for x in clr]
+        w = b.find_path([0], b.return_blocks(), removed=set(clr_blocks) | core.error_exit_blocks(b)) if clr_blocks else ['?']
+        ctx.ob('2m reposition-drops-parked-entry %s' % b.path, 'K9-agreement', b.path,
+               'a method that re-seeks the tree cursor drops the parked tree entry (pending_backend) on every success path', w is None,
+               'no assignment to pending_backend' if not clr_blocks else 'success path keeping the parked entry: ' + lib.short_path(b, w) if w else '')
+    ctx.ob('2m0 repositioning-methods', 'anchor', 'btree::iter::BTreeIterator', 'at least two repositioning methods exist (seek, seek_to_last)', nre >= 2, 'found %d' % nre)
     ii = ctx.body("btree::iter::BTreeIterator::<'a>::iter_inner")
     if ii:
+        # "every step is answered against the latest committed state at the time of the call": the commit overlay is asked on
+        # every step - no overlay answer is kept from an earlier call (a commit in between changes the overlay without changing
+        # the column's record id, so nothing would invalidate a kept answer)
+        oq = lib.sites_reaching(ii, ['db::CommitOverlay::btree_next', 'db::CommitOverlay::btree_prev', 're:CommitOverlay::btree_(next|prev)$'])
+        lib.must_pass(ctx, '2k overlay-queried-on-every-step', ii, oq,
+                      'every successful return of an iterator step has queried the commit overlay (btree_next / btree_prev) during this call')
+        it_adt = F.adts.get('btree::iter::BTreeIterator')
+        if it_adt:
+            # fields of the iterator that hold overlay data between calls: only the backend item may be parked (it is guarded by the record id)
+            ov_fields = [f['name'] for f in it_adt['variants'][0]['fields'] if not str(f.get('ty', '')).lstrip().startswith('&') and lib.type_mentions(F, f.get('ty', ''), r'db::Rc(Key|Value)')]
+            ctx.ob('2k2 no-overlay-data-kept-in-iterator', 'K4-confinement', 'btree::iter::BTreeIterator', 'the iterator keeps no reference-counted overlay key/value between calls', not ov_fields, str(ov_fields))
         sw = None
         for bi in ii.normal_blocks():
             pol = lib.eq_polarity(ii, bi)
